@@ -283,8 +283,8 @@ func (m *model) expectOwners(clientID string, addr netip.Addr, withDHCP bool) ma
 
 type dhcpStub struct{ m *model }
 
-func (d dhcpStub) Leases() []*dhcpsvc.Lease           { return nil }
-func (d dhcpStub) HostByIP(netip.Addr) string         { return "" }
+func (d dhcpStub) Leases() []*dhcpsvc.Lease               { return nil }
+func (d dhcpStub) HostByIP(netip.Addr) string             { return "" }
 func (d dhcpStub) MACByIP(ip netip.Addr) net.HardwareAddr { return d.m.macByIP(ip) }
 
 var discard = slog.New(slog.NewTextHandler(devNull{}, &slog.HandlerOptions{Level: slog.LevelError + 4}))
@@ -331,7 +331,12 @@ func dumpKey(s *client.Storage) (string, []*client.Persistent, []client.VerifInd
 }
 
 var probeAddrs = []string{"fe80::1%eth0", "fe80::1", "fe80::2%eth0", "fe80:1::1%eth1", "10.0.0.1", "10.0.0.2", "10.0.0.9", "10.0.1.1", "10.0.1.5", "10.0.2.1", "10.1.0.1", "2001:db8::1", "2001:db8::2", "2001:db8::1:0:0:1", "2001:db9::1"}
-var probeCIDs = []string{"", "cid1", "cid2", "cidx"}
+var probeCIDs = []string{"", "cid1", "cid2", "cidx", "cidup"}
+
+const (
+	mac8dash  = "aa-aa-aa-aa-aa-aa-aa-03"
+	mac8colon = "aa:aa:aa:aa:aa:aa:aa:03"
+)
 
 func names(set map[string]bool) string {
 	var l []string
@@ -546,9 +551,17 @@ func exec(hist []op) lib.Step {
 			return fail("precedence:find-ip", "Find(%q) = %s, reference owner %s\ndump %s", a, got, names(exp), key)
 		}
 	}
-	for _, id := range []string{"cid1", "cid2", mac6, mac8, mac20} {
+	// "cidup" is how a request spells the ClientID entered as "CidUp"; mac8colon
+	// is how a lease table spells the EUI-64 address entered with dashes (it is
+	// also a well-formed IPv6 literal).
+	for _, id := range []string{"cid1", "cid2", mac6, mac8, mac20, "cidup", mac8colon} {
 		k, cn := canonID(id)
 		wantN, wantOK := m.owner(k, cn, "")
+		if hw, err := net.ParseMAC(id); !wantOK && k == "ip" && err == nil {
+			// The text is both an address and a hardware address: owned by nobody
+			// as an address, it is looked up as the hardware address it also is.
+			wantN, wantOK = m.owner("mac", hw.String(), "")
+		}
 		p, ok := s.Find(id)
 		if ok != wantOK || (ok && p.Name != wantN) {
 			return fail("find-id:"+k, "Find(%q) found=%v, reference owner %q (found=%v)\ndump %s", id, ok, wantN, wantOK, key)
@@ -584,6 +597,18 @@ func zonedPass(c *lib.Ctx) {
 	b.Run()
 }
 
+// spellingPass: identifiers entered in another spelling than the one they are
+// looked up by: a ClientID with capital letters, an EUI-64 hardware address
+// written with dashes.
+func spellingPass(c *lib.Ctx) {
+	poolOverride = []string{mac8dash, "CidUp", "cidup", "10.0.0.1"}
+	defer func() { poolOverride = nil }()
+	ops := alphabet(true)
+	c.Note("alphabet_spelling_pass", fmt.Sprintf("%d operations over identifier pool %v, depth 3", len(ops), poolOverride))
+	b := &lib.BFS[op]{C: c, Ops: ops, Exec: exec, MaxDepth: 3, Workers: 16, Confirm: true}
+	b.Run()
+}
+
 // dupPass: identifier lists that name one identifier twice.
 func dupPass(c *lib.Ctx) {
 	poolOverride = []string{"10.0.0.0/16", "10.0.1.0/24", "10.0.0.1", "cid1"}
@@ -598,6 +623,7 @@ func dupPass(c *lib.Ctx) {
 func run(c *lib.Ctx) {
 	zonedPass(c)
 	dupPass(c)
+	spellingPass(c)
 	if c.Quick() {
 		ops := alphabet(true)
 		c.Note("alphabet", fmt.Sprintf("%d operations over identifier pool %v", len(ops), pool(true)))
@@ -654,7 +680,7 @@ func main() {
 				"distinct_nontrivial":           m.Distinct["nontrivial"],
 				"distinct_outcomes":             m.Distinct["outcomes"],
 				"max_depth":                     m.Maxes["max_depth"],
-				"rule": "BFS over add/update/remove/DHCP-flip histories on the real client.Storage; a state is (dump of the five index maps and stored clients, DHCP table); every transition is executed on the real code and compared with a list-of-clients reference for accept/reject, unchanged-on-reject, index consistency and every lookup (11 probe addresses x 4 ClientIDs x Find/ApplyClientFiltering/CustomUpstreamConfig). non-trivial = transition that changes which client owns some identifier",
+				"rule":                          "BFS over add/update/remove/DHCP-flip histories on the real client.Storage; a state is (dump of the five index maps and stored clients, DHCP table); every transition is executed on the real code and compared with a list-of-clients reference for accept/reject, unchanged-on-reject, index consistency and every lookup (11 probe addresses x 4 ClientIDs x Find/ApplyClientFiltering/CustomUpstreamConfig). non-trivial = transition that changes which client owns some identifier",
 			}
 		},
 		Assumptions: []string{"between equally specific stored prefixes that both contain an address either owner is accepted", "4-in-6 and zoned probe addresses are not in the probe set"},
